@@ -83,6 +83,17 @@ def gen_cases(rng, tier):
                 sp["objective"].append(["sum", ["*", ["DTc"], ["sq", xl]]])
                 sp["constraints"].append({"cid": 100 * (k + 1) + 50, "form": "le", "grid": "integrator",
                                           "lhs": [["*", ["DT"], xl]], "rhs": [["c", ocpgen.rnd(rng, 0.5, 2.0)]]})
+        live_template = mode == "clone" and rng.random() < 0.4
+        if live_template:
+            # the template is itself the first stage of the OCP (ocp.stage(first_stage, ...) makes the others)
+            stages[0]["t0"], stages[0]["T"] = copy.deepcopy(template_h["t0"]), copy.deepcopy(template_h["T"])
+        for k, sp in enumerate(stages):
+            if (mode == "direct" or k == 0) and rng.random() < 0.3:
+                # a placeholder nested in another one of the same stage: at_tf((x - at_t0(x))^2), sum((x - at_t0(x))^2)
+                xl = rng.choice(sp["leaves"]["x"])
+                sp["objective"].append([rng.choice(["at_tf", "sum"]), ["sq", ["-", xl, ["at_t0", xl]]]])
+            if mode == "clone" and k > 0:
+                sp["objective"] = copy.deepcopy(stages[0]["objective"])
         # guesses given on the stages (for clones: on the template): a constant for a state, the horizon
         for k, sp in enumerate(stages):
             if mode == "clone" and k > 0:
@@ -108,6 +119,11 @@ def gen_cases(rng, tier):
                               "on": rng.choice(["parent", "parent", "to", "from"])})
             if a["T"]["kind"] == "free" or b_["t0"]["kind"] == "free":
                 couplings.append({"cid": 950 + k, "from": k, "to": k + 1, "time": True})
+        if live_template:
+            # (a coupling declared on the live template would be a declaration on the template after the snapshot)
+            for c_ in couplings:
+                if (c_.get("on") == "from" and c_["from"] == 0) or (c_.get("on") == "to" and c_["to"] == 0):
+                    c_["on"] = "parent"
         tmpl_bspline = rng.choice([1, 2]) if (mode == "clone" and rng.random() < 0.3) else 0
         tmpl_inf = None
         if mode == "clone" and base["method"]["cls"] in ("MS", "SS") and base["method"].get("intg") == "rk" and \
@@ -118,6 +134,7 @@ def gen_cases(rng, tier):
             # the last stage is added after a first transcription, with nothing else declared afterwards
             couplings = [c for c in couplings if c["to"] != nst - 1 and c["from"] != nst - 1]
         cases.append({"mode": mode, "stages": stages, "couplings": couplings, "pp": ocpgen.rnd(rng, 0.3, 2.0), "late": late, "tmpl_bspline": tmpl_bspline, "tmpl_inf": tmpl_inf,
+                      "live_template": live_template,
                       "template_h": template_h if mode == "clone" else None,
                       "seed": rng.getrandbits(32), "solve": rng.random() < 0.3})
     for i in range(6 if tier == "quick" else 60):
@@ -224,8 +241,9 @@ def build_multistage(case):
             a = build.horizon_arg(tmpl_h[key])
             if a is not None:
                 kw[key] = a
-        tmpl = rockit.Stage(**kw)
-        tb = build.Built(None, tmpl, dict(base_spec, t0=tmpl_h["t0"], T=tmpl_h["T"]))
+        live = bool(case.get("live_template"))
+        tmpl = C.call("stage() (live template)", ocp.stage, **kw) if live else rockit.Stage(**kw)
+        tb = build.Built(ocp if live else None, tmpl, dict(base_spec, t0=tmpl_h["t0"], T=tmpl_h["T"]))
         C.call("declare(template)", declare_stage_content, tb)
         if case.get("tmpl_inf"):
             # a grid='inf' constraint (with inf_der / inf_inert helper symbols) on the template
@@ -258,7 +276,11 @@ def build_multistage(case):
                     kw[key] = build.horizon_arg(sp[key])
                 else:
                     sp[key] = tmpl_h[key]
-            st = C.call("stage(template)", ocp.stage, tmpl, **kw)
+            if live and k == 0:
+                st = tmpl
+                res["counters"]["live_templates"] = 1
+            else:
+                st = C.call("stage(template)", ocp.stage, tmpl, **kw)
             b = build.Built(ocp, st, sp)
             b.syms.update(tb.syms)
             for p_ in sp["params"]:
@@ -615,6 +637,9 @@ def run_case(case):
             res["violations"].append(C.exc_violation(ID, e, mode))
             return res
     # the template can be cloned again
+    if tmpl is not None and case.get("live_template"):
+        # (the live template is a stage of the OCP: the deliberate edit above may have been declared on it)
+        tmpl_snap = template_snapshot(tmpl)
     if tmpl is not None:
         try:
             ocp2 = rockit.Ocp()
